@@ -195,9 +195,12 @@ def _bbox_cases(q, base):
     # dim 2
     el2 = [[f] for f in ref.elementary_rotations(2, range(1, 16))]
     el2 += [[['rot', 0, 1, k], ['refl', 0]] for k in ((1, 5, 12) if q else range(1, 16))]
-    la = L1[:7] if q else L1
+    la = L1[:7] if q else L1[:9]
     cl2 = [(c, [a, b]) for c in centers[2] for a in la for b in la]
-    cover(el2, cl2, 13 if q else 1, [0.25, 0.75] if q else [0.0625, 0.5, 0.9375])
+    cover(el2, cl2, 13 if q else 1, [0.25, 0.75] if q else [0.0625, 0.5, 0.9375])      # thorough: full product
+    if not q:
+        extra2 = [(c, [a, b]) for c in centers[2] for a in L1 for b in L1 if a in L1[9:] or b in L1[9:]]
+        cover(el2, extra2, 5, [0.25, 0.75])
     # dim 3
     ks3 = (1, 3, 4, 6, 11) if q else range(1, 16)
     el3 = ref.elementary_rotations(3, ks3)
@@ -207,16 +210,18 @@ def _bbox_cases(q, base):
         sub = [f for f in el3 if f != ['I'] and (f[0] != 'rot' or f[3] in (1, 3, 4, 6, 11))]
     prod3 = [[a, b] for a in sub for b in sub if a != b]
     l4 = [[-1, 1], [0, 0], [-1e-4, 1e-4], [-0.5, 2]]
-    cl3 = [(c, [a, b, c_]) for c in centers[3] for a in l4 for b in l4 for c_ in l4]
+
+    def cl3(cs, alphabet):
+        return [(c, [a, b, c_]) for c in cs for a in alphabet for b in alphabet for c_ in alphabet]
     if q:
-        cover([[f] for f in el3] + prod3, cl3, 13, [0.5])
+        cover([[f] for f in el3] + prod3, cl3(centers[3], l4), 13, [0.5])
     else:
-        cover([[f] for f in el3], cl3, 1, [0.25, 0.75])          # full product with the elementary rotations
-        cover(prod3, cl3, 11, [0.25, 0.75])                        # products of two: covering design
+        cover([[f] for f in el3], cl3(centers[3][:2], l4), 1, [0.25, 0.75])     # full product, elementary rotations
+        cover([[f] for f in el3], cl3(centers[3][2:], l4), 3, [0.25, 0.75])     # far centres: covering design
+        cover(prod3, cl3(centers[3], l4), 23, [0.25, 0.75])                     # products of two: covering design
         l6 = l4 + [[0, 3], [0, 5e-4]]
-        extra = [(c, [a, b, c_]) for c in centers[3] for a in l6 for b in l6 for c_ in l6
-                 if any(x in ([0, 3], [0, 5e-4]) for x in (a, b, c_))]
-        cover([[f] for f in el3], extra, 7, [0.5])
+        extra = [x for x in cl3(centers[3], l6) if any(y in ([0, 3], [0, 5e-4]) for y in x[1])]
+        cover([[f] for f in el3], extra, 13, [0.5])
     return cases
 
 
@@ -364,16 +369,18 @@ def _ls_cases(q):
             if q:
                 kmax = rmax = 4
             elif gi == 0 and eta == 1.0:
-                kmax = rmax = 8
-            else:
+                kmax = rmax = 7
+            elif eta == 1.0:
                 kmax = rmax = 6
+            else:
+                kmax = rmax = 5
             for K in range(0, kmax + 1):
                 for rep_lim in range(0, rmax + 1):
                     cases.append({'kind': 'ls_tree', 'K': K, 'eta': eta, 'rep_lim': rep_lim, 'start': start, 'vd': vd,
                                   'answers': 3})
     if not q:
         # the library defaults K=10 with small repetition limits (two answers: below / above)
-        for rep_lim in (0, 1, 2, 3):
+        for rep_lim in (0, 1, 2):
             cases.append({'kind': 'ls_tree', 'K': 10, 'eta': 1.0, 'rep_lim': rep_lim, 'start': [0.0], 'vd': [1.0],
                           'answers': 2})
     return cases
@@ -409,7 +416,30 @@ def _build_body(case):
     return body, g, eta, x0
 
 
-def _build_check(case, obs, g, eta, x0):
+# The statement of C19 does not say which rotation a constructed region has.  The anchored mechanism
+# (_find_rotation_vector: "find search lines from the hessian approximation") and the repository's own
+# test_region_constructor1 do: the box axes are the eigenvectors of the Hessian approximation.  The clause is kept
+# separate (own signature, this switch) because it reads the mechanism's documentation rather than the statement.
+CHECK_EIGEN_AXES = True
+
+
+def _axes_are_eigenvectors(R, hess):
+    """None if not applicable (Hessian not symmetric / eigenvalues not well separated), else True/False."""
+    H = np.asarray(hess, dtype=float)
+    if H.ndim != 2 or H.shape[0] != H.shape[1] or not np.all(np.isfinite(H)) or not np.allclose(H, H.T, atol=1e-12):
+        return None
+    w = np.linalg.eigvalsh(H)
+    scale = float(np.max(np.abs(w)))
+    if scale == 0 or len(w) < 2 or float(np.min(np.diff(w))) < 1e-3 * scale or float(np.min(np.abs(w))) < 1e-3 * scale:
+        return None
+    for d in range(H.shape[0]):
+        v = R[:, d]
+        if float(np.max(np.abs(H @ v - float(v @ H @ v) * v))) > 1e-8 * scale:
+            return False
+    return True
+
+
+def _build_check(case, obs, g, eta, x0, hess=None):
     if obs['n_boxes'] != 1:
         return ('number-of-boxes', {'n': obs['n_boxes']})
     R, c, lim = obs['rotation'], obs['center'], obs['limits']
@@ -420,6 +450,8 @@ def _build_check(case, obs, g, eta, x0):
         return ('box-not-centred-at-optimum', {'center': c.tolist(), 'x_min': x0.tolist()})
     if not np.allclose(R.T @ R, np.eye(dim), atol=1e-9):
         return ('rotation-not-orthonormal', {'rotation': R.tolist()})
+    if CHECK_EIGEN_AXES and hess is not None and _axes_are_eigenvectors(R, hess) is False:
+        return ('box-axes-not-eigenvectors-of-hessian', {'rotation': R.tolist(), 'hess_appr': np.asarray(hess).tolist()})
     # probes in the box frame
     rays = {}
     start_answer = None
@@ -457,7 +489,7 @@ def run_build_tree(case):
 
     def check(obs, run):
         outcomes.add(digest((obs.get('limits'), obs['probes'])))
-        v = _build_check(case, obs, g, eta, x0)
+        v = _build_check(case, obs, g, eta, x0, case['hess'])
         if v:
             return (v[0], dict(v[1], **_build_describe(obs, g)))
         return None
@@ -469,7 +501,7 @@ def run_build_tree(case):
 def run_build_one(case):
     body, g, eta, x0 = _build_body(case)
     run = explore.run_once(body, case['choices'])
-    v = _build_check(case, run.obs, g, eta, x0)
+    v = _build_check(case, run.obs, g, eta, x0, case['hess'])
     if v:
         return bad('C19:build:' + v[0], dict(v[1], **_build_describe(run.obs, g)))
     return ok(outcome=digest((run.obs.get('limits'), run.obs['probes'])))
@@ -486,7 +518,7 @@ def _build_cases(q):
                 for eta in (1.0, 0.5):
                     if K * (rep_lim + 2) > 20:
                         continue
-                    three = K * (rep_lim + 2) <= (6 if q else 12)
+                    three = K * (rep_lim + 2) <= (6 if q else 10)
                     cases.append({'kind': 'build_tree', 'x_min': x0, 'hess': h, 'K': K, 'eta': eta, 'rep_lim': rep_lim,
                                   'answers': 3 if three else 2})
     for x0, h in two_d:
@@ -816,7 +848,7 @@ def _judge_romc(tag, case, romc, values, dim, fit, n2):
         obs = {'n_boxes': 1, 'rotation': R, 'center': c, 'limits': lim,
                'probes': [(tuple(np.round((th - x0) / g, 3).tolist()), 0 if val < eps_r else 1)
                           for th, val in probs[i].c19_probes]}
-        v = _build_check(case, obs, g, eta, x0)
+        v = _build_check(case, obs, g, eta, x0, probs[i].result.hess_appr)
         if v:
             return bad('C19:%s:region:%s' % (tag, v[0]), dict(v[1], problem=i, **_build_describe(obs, g)))
         eff = [tuple(map(float, r_)) for r_ in lim]
@@ -1024,7 +1056,7 @@ def _e2e_cases(q, base):
     ax2 = [[-2.0 + 1.0 * i for i in range(5)], [-2.0 + 1.0 * i for i in range(5)]]
     cases = []
     for prior, axes, obs in (('U1', ax1, [0.5]), ('H2', ax2, [0.0, 0.5])) + (() if q else (('N1', ax1, [-1.0]), ('UN2', ax2, [1.0, 0.0]))):
-        for seed in [base + k for k in range(2 if q else 5)]:
+        for seed in [base + k for k in range(2 if q else 3)]:
             for fit in (False, True):
                 for (K, eta, rep_lim, ef, er, ec) in ((3, 0.5, 5, 0.75, 1.0, 0.75), (2, 1.0, 1, 1e-9, 0.5, 2.0)) if q else \
                         ((3, 0.5, 5, 0.75, 1.0, 0.75), (2, 1.0, 1, 1e-9, 0.5, 2.0), (4, 0.25, 8, 1.0, 0.25, 0.25)):
